@@ -36,6 +36,8 @@ pub enum Call {
     Invariant { tag: i32 },
     /// .independent_variable(0, 1, .., n-1)
     X(usize),
+    /// .independent_variable(start, start+1, .., start+n-1): an earlier, later overridden grid
+    XFrom { n: usize, start: i32 },
     /// .initial_parameters(values)
     Init(Vec<i32>),
 }
@@ -119,6 +121,7 @@ pub fn interpret<T: Sc>(prog: &Program, hooks: Option<Arc<Hooks>>) -> Result<Sep
                 b.invariant_function(move |x: &DVector<T>| finish::<T>(&hooks, id, x.map(|xi| T::of(xi.f() + tag as f64))))
             }
             Call::X(n) => b.independent_variable(DVector::from_fn(*n, |i, _| T::of(i as f64))),
+            Call::XFrom { n, start } => b.independent_variable(DVector::from_fn(*n, |i, _| T::of(i as f64 + *start as f64))),
             Call::Init(v) => b.initial_parameters(v.iter().map(|x| T::of(*x as f64)).collect()),
         };
     }
@@ -252,7 +255,7 @@ pub fn specify(prog: &Program) -> SpecResult {
                 invariants += 1;
                 attachable = false;
             }
-            Call::X(_) => {
+            Call::X(_) | Call::XFrom { .. } => {
                 xs += 1;
                 attachable = false;
             }
@@ -298,6 +301,8 @@ pub struct Expected {
     /// (kind, names, form, derivative forms by model index)
     cols: Vec<ExpCol>,
     model: Vec<String>,
+    /// first value of the independent variable (the grid is x0, x0+1, ...)
+    pub x0: f64,
 }
 struct ExpCol {
     /// call index of the function (for fault hooks)
@@ -314,6 +319,8 @@ impl Expected {
         let model = prog.model_names.clone();
         let mut cols: Vec<ExpCol> = vec![];
         let mut n = 0;
+        // the independent variable of the LAST call counts
+        let mut x0 = 0.0;
         for (id, c) in prog.calls.iter().enumerate() {
             match c {
                 Call::Function { names, form } => cols.push(ExpCol { call_id: id, names: names.clone(), form: form.clone(), derivs: vec![] }),
@@ -322,11 +329,18 @@ impl Expected {
                     cols.last_mut().unwrap().derivs.push((k, id, form.clone()));
                 }
                 Call::Invariant { tag } => cols.push(ExpCol { call_id: id, names: vec![], form: Form { tag: *tag, q: vec![] }, derivs: vec![] }),
-                Call::X(len) => n = *len,
+                Call::X(len) => {
+                    n = *len;
+                    x0 = 0.0;
+                }
+                Call::XFrom { n: len, start } => {
+                    n = *len;
+                    x0 = *start as f64;
+                }
                 Call::Init(_) => {}
             }
         }
-        Expected { n, m: cols.len(), p: model.len(), cols, model }
+        Expected { n, x0, m: cols.len(), p: model.len(), cols, model }
     }
     fn args(&self, names: &[String], alpha: &[f64]) -> Vec<f64> {
         names.iter().map(|nm| alpha[self.model.iter().position(|m| m == nm).unwrap()]).collect()
@@ -337,7 +351,7 @@ impl Expected {
         for c in &self.cols {
             let a = self.args(&c.names, alpha);
             for i in 0..self.n {
-                out.push(c.form.value(i as f64, &a));
+                out.push(c.form.value(i as f64 + self.x0, &a));
             }
         }
         out
@@ -349,7 +363,7 @@ impl Expected {
                 Some((_, _, f)) => {
                     let a = self.args(&c.names, alpha);
                     for i in 0..self.n {
-                        out.push(f.value(i as f64, &a));
+                        out.push(f.value(i as f64 + self.x0, &a));
                     }
                 }
                 None => out.extend(std::iter::repeat(0.0).take(self.n)),
@@ -427,8 +441,15 @@ pub fn valid_program(us: &[u16], l: usize, max_fn: usize, max_arity: usize, n: u
     let nblocks = fn_names.len();
     let x_pos = pick(next(), nblocks + 1);
     let init_pos = pick(next(), nblocks + 1);
+    let ex = next();
+    let early_x: Option<(usize, i32)> = if ex % 4 == 0 { Some((pick(ex, x_pos + 1), 10 + (ex % 7) as i32)) } else { None };
     let inv_pos: Vec<usize> = (0..pick(next(), 3)).map(|_| pick(next(), nblocks + 1)).collect();
     for b in 0..=nblocks {
+        // (1 of 4 programs: an earlier call with another grid of the same length, overridden by
+        // the real one — nothing may be evaluated on, or remembered from, the first grid)
+        if early_x.is_some_and(|(pos, _)| pos == b) {
+            calls.push(Call::XFrom { n, start: early_x.unwrap().1 });
+        }
         if x_pos == b {
             calls.push(Call::X(n));
         }
